@@ -109,12 +109,19 @@ def run():
 
 
 def multi():
-    """stdin: {"objects": [{"lang": L, "overrides": {...}|null}, ...], "cases": [[id_type, string], ...], "mode": "create_all_first"|"interleaved"}
+    """stdin: {"objects": [{"lang": L, "overrides": {...}|null}, ...], "cases": [[id_type, string], ...], "mode": "create_all_first"|"interleaved"|"alternating"}
     Several Language objects (possibly of the same language, with different configuration overrides) live in ONE process.
     stdout: {"multi": [[result per case] per object (first use), ...], "again": [[...] per object (used again after all others)]}"""
     doc = json.load(sys.stdin)
     objs, first = [], []
-    if doc.get('mode') == 'interleaved':
+    if doc.get('mode') == 'alternating':
+        # call by call: every case on object 0, then on object 1, ... (one shared lru_cache, evictions when many cases)
+        objs = [language(o['lang'], o.get('overrides')) for o in doc['objects']]
+        first = [[] for _ in objs]
+        for ty, s in doc['cases']:
+            for i, lang in enumerate(objs):
+                first[i].append(one(lang, ty, s))
+    elif doc.get('mode') == 'interleaved':
         for o in doc['objects']:
             lang = language(o['lang'], o.get('overrides'))
             objs.append(lang)
